@@ -139,6 +139,15 @@ pub struct PairEngine<'a, E: Engine> {
     pub gen: String,
 }
 
+impl<'a, E: Engine> PairEngine<'a, E> {
+    fn exh_stride(&self, tier: Tier, n: u64) -> u64 {
+        let cap: u64 = if tier == Tier::Quick { 300_000 } else { 20_000_000 };
+        // an odd stride, so that it is coprime to the power-of-two and even periods of the enumerations
+        let s = (n + cap - 1) / cap.max(1);
+        if s <= 1 { 1 } else { s | 1 }
+    }
+}
+
 impl<'a, E: Engine> Engine for PairEngine<'a, E> {
     fn name(&self) -> &'static str {
         self.inner.name()
@@ -162,6 +171,23 @@ impl<'a, E: Engine> Engine for PairEngine<'a, E> {
             Tier::Thorough => (4_000_000, 600),
         };
         Budget { random: r.min(b.random), per_stratum: s.min(b.per_stratum), strata: b.strata }
+    }
+    // the generator's enumerated sub-space, strided down to at most 300 000 cases in the quick tier (every case of it
+    // in the thorough tier up to 20 million)
+    fn exh_len(&self, _prop: &str, tier: Tier) -> u64 {
+        let n = self.inner.exh_len(&self.gen, tier);
+        n / self.exh_stride(tier, n).max(1)
+    }
+    fn exh_case(&self, _prop: &str, tier: Tier, i: u64) -> Case {
+        let n = self.inner.exh_len(&self.gen, tier);
+        self.inner.exh_case(&self.gen, tier, i * self.exh_stride(tier, n))
+    }
+    fn exh_desc(&self, _prop: &str, tier: Tier) -> String {
+        let n = self.inner.exh_len(&self.gen, tier);
+        if n == 0 {
+            return String::new();
+        }
+        format!("every {}th case of the enumerated sub-space of {}: {}", self.exh_stride(tier, n), self.gen, self.inner.exh_desc(&self.gen, tier))
     }
     fn lay_is_layout(&self, _prop: &str) -> bool {
         self.inner.lay_is_layout(&self.gen)
